@@ -13,7 +13,41 @@
 #include <stdlib.h>
 #include <string.h>
 
-#ifdef VF_NATIVE
+#ifdef VF_GRID
+/* grid mode: a native driver (harness/grid_*.c) includes the harness with VF_GRID defined, fills the input table and calls
+ * the entry functions many times in one process: the same assertions as under CBMC, evaluated on enumerated inputs. */
+#include <stdio.h>
+#include <setjmp.h>
+struct vf_grid_in { const char *name; unsigned __int128 scalar; const unsigned char *bytes; size_t nbytes; };
+static struct vf_grid_in vf_grid_tab[8]; static int vf_grid_n;
+static jmp_buf vf_grid_jmp; static int vf_grid_skipped;
+static unsigned long long vf_grid_evaluated, vf_grid_failed; static char vf_grid_first[400];
+static void vf_grid_describe(char *o, size_t n) {
+	size_t l = 0; for(int i = 0; i < vf_grid_n && l + 8 < n; i++) {
+		l += (size_t)snprintf(o + l, n - l, "%s=", vf_grid_tab[i].name);
+		if(vf_grid_tab[i].bytes) { for(size_t j = 0; j < vf_grid_tab[i].nbytes && l + 4 < n; j++) l += (size_t)snprintf(o + l, n - l, "%02x", vf_grid_tab[i].bytes[j]); }
+		else l += (size_t)snprintf(o + l, n - l, "%llu", (unsigned long long)vf_grid_tab[i].scalar);
+		if(l + 2 < n) o[l++] = ' ';
+	}
+	o[l < n ? l : n - 1] = 0;
+}
+static unsigned __int128 vf_grid_scalar(const char *name) { for(int i = 0; i < vf_grid_n; i++) if(!vf_grid_tab[i].bytes && !strcmp(vf_grid_tab[i].name, name)) return vf_grid_tab[i].scalar; return 0; }
+static void vf_grid_bytes(const char *name, unsigned char *dst, size_t n) {
+	memset(dst, 0, n);
+	for(int i = 0; i < vf_grid_n; i++) if(vf_grid_tab[i].bytes && !strcmp(vf_grid_tab[i].name, name)) memcpy(dst, vf_grid_tab[i].bytes, vf_grid_tab[i].nbytes < n ? vf_grid_tab[i].nbytes : n);
+}
+#define __CPROVER_assume(c) do { if(!(c)) { vf_grid_skipped = 1; longjmp(vf_grid_jmp, 1); } } while(0)
+#define __CPROVER_assert(c, msg) do { if(!(c)) { if(!vf_grid_failed++) { char d_[300]; vf_grid_describe(d_, sizeof(d_)); snprintf(vf_grid_first, sizeof(vf_grid_first), "%s [%s]", msg, d_); } } } while(0)
+#define VF_SCALAR(type, name) type name = (type)vf_grid_scalar(#name)
+#define VF_BYTES(name, N) unsigned char name[N]; vf_grid_bytes(#name, name, N)
+#define VF_CANARY() do { } while(0)
+#define VF_MAIN(fn)
+#define VF_NATIVE_MAIN
+#define VF_IS_NATIVE 1
+/* run one case: VF_GRID_RUN(entry) after filling vf_grid_tab / vf_grid_n */
+#define VF_GRID_RUN(entry) do { vf_grid_skipped = 0; if(!setjmp(vf_grid_jmp)) { entry(); } if(!vf_grid_skipped) vf_grid_evaluated++; } while(0)
+#define VF_GRID_SUMMARY() (printf("%s%s%sVF-GRID: evaluated %llu failed %llu\n", vf_grid_failed ? "VF-GRID: FAIL " : "", vf_grid_failed ? vf_grid_first : "", vf_grid_failed ? "\n" : "", vf_grid_evaluated, vf_grid_failed), vf_grid_failed ? 1 : 0)
+#elif defined(VF_NATIVE)
 #include <stdio.h>
 static int vf_failed;
 #define __CPROVER_assume(c) do { if(!(c)) { printf("VF-REPLAY: assumption not met: %s\n", #c); exit(77); } } while(0)
